@@ -305,14 +305,31 @@ func c02Judge(t testing.TB, sc c02Scenario, dir string, fixtures map[string][]by
 			got[fields[0]]++
 		}
 		var diffs []string
-		for k, n := range want {
-			if got[k] != n && (quiescent || got[k] > n) {
-				diffs = append(diffs, fmt.Sprintf("on disk %s x%d, index x%d", k, n, got[k]))
+		if quiescent {
+			for k, n := range want {
+				if got[k] != n {
+					diffs = append(diffs, fmt.Sprintf("on disk %s x%d, index x%d", k, n, got[k]))
+				}
 			}
-		}
-		for k, n := range got {
-			if want[k] == 0 {
-				diffs = append(diffs, fmt.Sprintf("index lists %s x%d which is no complete block file on disk", k, n))
+			for k, n := range got {
+				if want[k] == 0 {
+					diffs = append(diffs, fmt.Sprintf("index lists %s x%d which is no complete block file on disk", k, n))
+				}
+			}
+		} else {
+			// A cancelled write may still be finishing: between the index and the
+			// disk walk a fixture may have been replaced by the complete block
+			// (rename), so the two snapshots need not agree. Every index entry is
+			// judged on its own: it must name the block with the size of the
+			// complete block or of an untouched fixture of that name.
+			allowed := map[string]bool{fmt.Sprintf("%s+%d", h, len(data)): true}
+			for rel, fx := range fixtures {
+				allowed[fmt.Sprintf("%s+%d", filepath.Base(rel), len(fx))] = true
+			}
+			for k, n := range got {
+				if !allowed[k] {
+					diffs = append(diffs, fmt.Sprintf("index lists %s x%d: neither the complete block nor an untouched pre-existing copy", k, n))
+				}
 			}
 		}
 		sort.Strings(diffs)
@@ -361,9 +378,12 @@ func TestVerifC02(t *testing.T) {
 	if run.Thorough() {
 		scenarios = all
 	} else {
-		off := int(run.Seed() % 2)
+		// a seed-chosen quarter of the list plus two fixed anchors; over four
+		// consecutive seeds every scenario is run
+		off := int(run.Seed() % 4)
 		for i, sc := range all {
-			if i%2 == off || sc.Pre == "none" {
+			anchor := (sc.Size == 300<<10 && sc.NVol == 1 && sc.Pre == "none") || (sc.Size == 100<<10 && sc.NVol == 2 && sc.Pre == "corrupt_all")
+			if i%4 == off || anchor {
 				scenarios = append(scenarios, sc)
 			}
 		}
